@@ -9,6 +9,7 @@ import Enc.Model.Json.DecScalar
 import Enc.Spec.Json.StdDec
 import Enc.Model.Json.DynNumber
 import Enc.Spec.Json.DynNumber
+import Enc.Model.Json.Own
 /-! line-protocol handlers, area `json` (syntax layer). -/
 namespace Enc.Driver.Json
 open Enc
@@ -103,6 +104,22 @@ def handle (op : String) (args : List String) : Option (String × String × Stri
       | .f64 => "f64"
       | .err => "err"
     pure (sh (Model.Json.decodeDynamicNumber fl b), sh (Spec.Json.dynSpec fl b), "")
+  -- json.prov <copyflags 0..7> <shape> <hex literal> <hex document>: does the decoded leaf point into the input buffer?
+  | "json.prov", [m, shape, h, hd] => do
+    let m ← m.toNat?
+    let lit ← fromHex h
+    let doc ← fromHex hd
+    let fl : Model.Json.Own.CopyFlags := { dontCopyString := m % 2 == 1, dontCopyNumber := m / 2 % 2 == 1, dontCopyRawMessage := m / 4 % 2 == 1 }
+    let leaf : Model.Json.Own.Leaf := if shape == "num" || shape == "numfield" then .number
+      else if shape == "raw" || shape == "rawelem" then .raw else if shape == "bytes" then .bytes else .string
+    let pf := Model.Json.internalParseFlags doc
+    let flagOn := match leaf with | .string => fl.dontCopyString | .number => fl.dontCopyNumber | .raw => fl.dontCopyRawMessage | .bytes => false
+    let empty := (leaf == .string || leaf == .bytes) && lit.length == 2
+    let mres := match Model.Json.Own.leafProv fl pf leaf lit with
+      | none => "err"
+      | some p => if empty then "empty" else if p == .input then "in" else "out"
+    let sres := if mres == "err" || mres == "empty" then mres else if flagOn then "-" else "out"
+    pure (mres, sres, "")
   | "json.decstr", [h] => do
     let b ← fromHex h
     let sh : Option Bytes → String := fun | some v => "ok:" ++ toHex v | none => "err"
